@@ -10,7 +10,11 @@ from .ctx import PathCtx, PathAbort, Unsupported, SpecError
 from .interp import Interp, Frame, Raised, ReturnEx, BreakEx, ContinueEx, MISSING, _ctext
 from .vals import *   # noqa
 
-MAX_PATHS = 4000
+import os as _os
+
+
+def _max_paths():
+    return 40000 if _os.environ.get("PYVC_TIER") == "thorough" else 4000
 
 
 class FnResult:
@@ -387,8 +391,8 @@ def verify_function(cset, key, opts=None):
     work = [[]]
     deadline = t0 + opts.get("fn_timeout", 300)
     while work:
-        if res.paths >= MAX_PATHS:
-            res.unsupported.append("path limit %d exceeded" % MAX_PATHS)
+        if res.paths >= _max_paths():
+            res.unsupported.append("path limit %d exceeded" % _max_paths())
             break
         if time.time() > deadline:
             res.unsupported.append("function time budget exceeded after %d paths" % res.paths)
